@@ -18,7 +18,11 @@ def run(ctx):
             if key not in seen:
                 seen.add(key)
                 out.append(dict(s, bind={}, dens=[]))
-        scen = out[ctx.seed % 4::4] if ctx.quick else out
+        if ctx.quick:       # all primitives, every 4th composite
+            prim = [s for s in out if s["expr"]["k"] in ("par", "tri", "circle", "interval", "sphere")]
+            rest = [s for s in out if s["expr"]["k"] not in ("par", "tri", "circle", "interval", "sphere")]
+            out = prim + rest[ctx.seed % 4::4]
+        scen = out
     traces = ctx.drive("geoattr", scen, timeout=3000)
     ctx.validate("Trace_C18", traces, timeout=3000)
     ctx.rule = RULE
